@@ -12,7 +12,7 @@ PROP = {
             "8 flavours (Md, MyST +-domain, RST +-domain +-default role) x cursor None / every 8th offset / out-of-range offsets; distinct = FNV of the text; "
             "non-trivial = some parse call returned >= 3 items",
     "min_nontrivial": {"quick": 30000, "thorough": 1000000},
-    "max_secs": {"quick": 55, "thorough": 900},
+    "max_secs": {"quick": 600, "thorough": 1500},
     "require_clauses": ["a:no-panic", "b:in-bounds", "c:sorted", "family:markup", "family:soup"],
     "assumptions": COMMON_ASSUME + [
         "'inside the description' = inside the LuaDocDescription node, extended to the start of the '---' token directly in front of it (the description parser "
